@@ -656,8 +656,11 @@ def ow3(ctx, R):
         else:
             R.ok(q, fi.where(), "does not modify its arguments")
     # MultiScaling hands the raw array itself to the first scale: purity of every scale is the whole protection
-    cs = prog.func("scaling.MultiScaling._compute_scaled_data")
-    w = AliasWalker(prog, cs, {"raw_channel_data"}, summaries=summaries, elem_alias=True).run()
+    from .rules_dispatch import find_scale_evaluator
+    cs = find_scale_evaluator(ctx)
+    raw_names = {p for p in cs.params if p != "self" and "raw" in p} or {"self." + n.attr for n in ast.walk(cs.node) if isinstance(n, ast.Attribute)
+                                                                         and dotted(n.value) == "self" and "raw" in n.attr}
+    w = AliasWalker(prog, cs, raw_names, summaries=summaries, elem_alias=True).run()
     bad = [m for m in w.mutations if m.kind == ALIAS]
     R.check(not bad, "scaling.MultiScaling._compute_scaled_data", cs.where(), "the evaluator itself performs no in-place operation on raw data",
             "the scale-graph evaluator modifies raw channel data in place (%s)" % (bad[0].how if bad else ""))
